@@ -11,24 +11,33 @@
                                                           handler must not come back with a later message
      [k |-> "silent", pos, v]                            unreported change of the spa block
      [k |-> "refresh", off, data |-> <<bytes>>]         an install performed by a get()
-     [k |-> "got", off, len, ok]                         a refresh call returned (ok = it reported success)
+     [k |-> "got", off, len, ok]                         a refresh call returned (ok = it reported success); with a field
+                                                          `raced` the spa's block changed inside the range after it was
+                                                          fetched (the protocol's own race): equality is not demanded
+     [k |-> "fetch", off, data]                          the spa answered a status-block request with these bytes (logged
+                                                          where a reported change reaches the client between the segments)
+   Events are logged in ARRIVAL order (for a refresh: arrival of its final segment).  `msg` and `refresh` events may
+   carry n > 0, the global sequence number of their (first) install: installs happen in arrival order.
      [k |-> "final", block |-> <<bytes>>]               client block at the end
    Installs are observed by wrapping the structure object's replace_status_block_segment
    from the harness (exact linearisation point of every block mutation).             *)
 EXTENDS PartialUpdate, TraceKit
 
-VARIABLES tid, l
-tvars == <<vars, tid, l>>
+VARIABLES tid, l, fetched, inst
+tvars == <<vars, tid, l, fetched, inst>>
+NoFetch == [off |-> 999999, data |-> <<>>]
+N_(e) == IF "n" \in DOMAIN e THEN e.n ELSE 0
 Log == Logs[tid]
 Ev == Log.ev
 E == Ev[l]
 More == l <= Len(Ev)
-Step == l' = l + 1 /\ UNCHANGED tid
+StepI == l' = l + 1 /\ UNCHANGED tid
+Step == StepI /\ UNCHANGED <<fetched, inst>>
 
 TInit == /\ TKInit /\ tid \in 1..NLogs /\ l = 1
          /\ spa = [p \in Pos |-> Logs[tid].init[p + 1]]
          /\ cli = spa /\ ref = spa /\ changes = <<>> /\ pseq = 0 /\ lastAck = 0
-         /\ acks = 0 /\ msgs = 0 /\ steps = 0
+         /\ acks = 0 /\ msgs = 0 /\ steps = 0 /\ fetched = NoFetch /\ inst = 0
 
 \* the message's records, with positions and data as decoded from the datagram
 TMsg == /\ More /\ E.k = "msg"
@@ -39,7 +48,8 @@ TMsg == /\ More /\ E.k = "msg"
         /\ changes' = LeftOver(E.ch)
         /\ pseq' = E.acks[1] /\ lastAck' = E.acks[1]
         /\ acks' = acks + 1 /\ msgs' = msgs + 1 /\ steps' = steps + 1
-        /\ Step
+        /\ (N_(E) > 0 => N_(E) > inst) /\ inst' = IF N_(E) > 0 THEN N_(E) ELSE inst
+        /\ StepI /\ UNCHANGED fetched
 TEarly == /\ More /\ E.k = "early"
           /\ Len(E.acks) = 1 /\ E.acks[1] \in 1..191
           /\ changes' = LeftOver(E.ch)
@@ -50,22 +60,29 @@ TSilent == /\ More /\ E.k = "silent"
            /\ spa' = [spa EXCEPT ![E.pos] = E.v] /\ steps' = steps + 1
            /\ UNCHANGED <<cli, ref, changes, pseq, lastAck, acks, msgs>> /\ Step
 TRefresh == /\ More /\ E.k = "refresh"
-            /\ \A i \in 1..Len(E.data) : E.data[i] = spa[E.off + i - 1]   \* it fetched the spa's bytes
-            /\ cli' = [p \in Pos |-> IF p >= E.off /\ p < E.off + Len(E.data) THEN spa[p] ELSE cli[p]]
-            /\ ref' = [p \in Pos |-> IF p >= E.off /\ p < E.off + Len(E.data) THEN spa[p] ELSE ref[p]]
+            \* it installs the spa's bytes: the current ones, or the ones of the logged answer
+            /\ \/ \A i \in 1..Len(E.data) : E.data[i] = spa[E.off + i - 1]
+               \/ (fetched.off = E.off /\ fetched.data = E.data)
+            /\ cli' = [p \in Pos |-> IF p >= E.off /\ p < E.off + Len(E.data) THEN E.data[p - E.off + 1] ELSE cli[p]]
+            /\ ref' = [p \in Pos |-> IF p >= E.off /\ p < E.off + Len(E.data) THEN E.data[p - E.off + 1] ELSE ref[p]]
             /\ steps' = steps + 1
-            /\ UNCHANGED <<spa, changes, pseq, lastAck, acks, msgs>> /\ Step
+            /\ (N_(E) > 0 => N_(E) > inst) /\ inst' = IF N_(E) > 0 THEN N_(E) ELSE inst
+            /\ UNCHANGED <<spa, changes, pseq, lastAck, acks, msgs, fetched>> /\ StepI
+TFetch == /\ More /\ E.k = "fetch"
+          /\ \A i \in 1..Len(E.data) : E.data[i] = spa[E.off + i - 1]
+          /\ fetched' = [off |-> E.off, data |-> E.data]
+          /\ UNCHANGED <<vars, inst>> /\ StepI
 \* a refresh that reported success has made the client's range equal to the spa's (steps are taken
 \* only while nothing else is in flight, so the spa did not change underneath it)
 TGot == /\ More /\ E.k = "got"
-        /\ E.ok => \A p \in Pos : (p >= E.off /\ p < E.off + E.len) => cli[p] = spa[p]
+        /\ (E.ok /\ "raced" \notin DOMAIN E) => \A p \in Pos : (p >= E.off /\ p < E.off + E.len) => cli[p] = spa[p]
         /\ UNCHANGED vars /\ Step
 TFinal == /\ More /\ E.k = "final"
           /\ Len(E.block) = NB
           /\ \A p \in Pos : E.block[p + 1] = cli[p]
           /\ UNCHANGED vars /\ Step
 
-TNext == TMsg \/ TEarly \/ TSilent \/ TRefresh \/ TGot \/ TFinal
+TNext == TMsg \/ TEarly \/ TSilent \/ TRefresh \/ TFetch \/ TGot \/ TFinal
 TSpec == TInit /\ [][TNext]_tvars
 
 Track == /\ TKTrack(tid, l, l > Len(Ev))
